@@ -159,7 +159,17 @@ def drive(sch, spec, sign=(1.0, 1.0), between=None):
             d["cost"] = (1 + tid % 4) * r / 8.0
         return d
 
+    def guarded(what, f, *a):
+        """a scheduler call; an exception ends the scenario and is part of the observable trace"""
+        try:
+            return True, f(*a)
+        except Exception as e:  # noqa
+            ev.append(["exception", what, type(e).__name__])
+            return False, None
+
     for _ in range(spec["max_events"]):
+        if ev and ev[-1][0] == "exception":
+            break
         acts = []
         if len(workers) < spec["n_workers"] and next_id < spec.get("max_trials", 10 ** 9):
             acts += ["suggest"] * 2
@@ -172,7 +182,9 @@ def drive(sch, spec, sign=(1.0, 1.0), between=None):
         a = rng.choice(acts)
         hook()
         if a == "suggest":
-            sg = sch.suggest(next_id)
+            ok, sg = guarded("suggest", sch.suggest, next_id)
+            if not ok:
+                break
             if sg is None:
                 ev.append(["suggest", "none"])
                 if not workers:
@@ -205,7 +217,9 @@ def drive(sch, spec, sign=(1.0, 1.0), between=None):
                 del workers[tid]
                 continue
             res = result_dict(tid, r)
-            d = sch.on_trial_result(trials[tid], dict(res))
+            ok, d = guarded("on_trial_result", sch.on_trial_result, trials[tid], dict(res))
+            if not ok:
+                break
             last_r[tid] = r
             ev.append(["result", tid, r, d])
             workers[tid][0] = r + 1
@@ -221,6 +235,8 @@ def drive(sch, spec, sign=(1.0, 1.0), between=None):
         elif a == "fail":
             tid = rng.choice(sorted(workers))
             del workers[tid]
-            sch.on_trial_error(trials[tid])
+            ok, _ = guarded("on_trial_error", sch.on_trial_error, trials[tid])
+            if not ok:
+                break
             ev.append(["error", tid])
     return ev
